@@ -160,7 +160,7 @@ def main():
                 _, i, a = c
                 st = _dec(a.get("settings"))
                 args_before = json.dumps(st, sort_keys=True, default=str)
-                insts[i] = (DateDataParser(languages=a.get("languages"), locales=a.get("locales"), settings=st), None)
+                insts[i] = (DateDataParser(languages=a.get("languages"), locales=a.get("locales"), region=a.get("region"), settings=st), None)
                 conc = "created"
                 untouched = args_before == json.dumps(st, sort_keys=True, default=str)
             elif kind == "xget":          # ["xget", inst, string]
@@ -176,7 +176,7 @@ def main():
                 langs = list(a["languages"]) if a.get("languages") else None
                 args_before = (json.dumps(st, sort_keys=True, default=str), list(langs or []))
                 locs = list(a["locales"]) if a.get("locales") else None
-                r = dateparser.parse(a["s"], languages=langs, locales=locs, settings=st)
+                r = dateparser.parse(a["s"], languages=langs, locales=locs, region=a.get("region"), settings=st)
                 untouched_l = locs == (list(a["locales"]) if a.get("locales") else None)
                 conc = norm_dt(r) + ("|off=%s" % r.utcoffset() if r is not None and r.tzinfo is not None else "")
                 untouched = untouched_l and args_before == (json.dumps(st, sort_keys=True, default=str), list(langs or []))
